@@ -104,7 +104,7 @@ with x_cmp (fuel : nat) (l : list tok) : option (xexpr * list tok) :=
 
 (* the formula after "=": Some e when it is a well-formed operator formula *)
 Definition xparse (ts : list tok) : option xexpr :=
-  match x_cmp (8 * List.length ts + 16) ts with Some (e, []) => Some e | _ => None end.
+  match x_cmp (20 * List.length ts + 48) ts with Some (e, []) => Some e | _ => None end.     (* fuel: never the limiting factor (Proofs/FormulaSpecGrammar.v) *)
 
 (* ---------- Excel's value ---------- *)
 Inductive xres := XVal (v : val) | XErr (code : string) | XSilent.     (* XSilent: the spec does not pin the result *)
